@@ -996,3 +996,79 @@ def mem_value(sg, loc, node, max_steps=20000):
     if not terms:
         return ('load0', loc)
     return ('phi', tuple(terms))
+
+
+# --------------------------------------------------------------------------- dominators / back edges
+
+def dominators(sg):
+    """Immediate dominators over nodes reachable from entry (Cooper-Harvey-Kennedy)."""
+    if getattr(sg, '_idom', None) is not None:
+        return sg._idom
+    order = []
+    seen = set()
+    st = [(sg.entry, iter(sg.nodes[sg.entry].succ))]
+    seen.add(sg.entry)
+    while st:
+        u, it = st[-1]
+        adv = False
+        for v in it:
+            if v not in seen:
+                seen.add(v)
+                st.append((v, iter(sg.nodes[v].succ)))
+                adv = True
+                break
+        if not adv:
+            order.append(u)
+            st.pop()
+    rpo = list(reversed(order))
+    num = {n: i for i, n in enumerate(rpo)}
+    idom = {sg.entry: sg.entry}
+    changed = True
+    while changed:
+        changed = False
+        for n in rpo[1:]:
+            preds = [p for p in sg.nodes[n].pred if p in idom]
+            if not preds:
+                continue
+            new = preds[0]
+            for p in preds[1:]:
+                a, b = p, new
+                while a != b:
+                    while num[a] > num[b]:
+                        a = idom[a]
+                    while num[b] > num[a]:
+                        b = idom[b]
+                new = a
+            if idom.get(n) != new:
+                idom[n] = new
+                changed = True
+    sg._idom = idom
+    sg._rpo_num = num
+    return idom
+
+
+def dominates(sg, a, b):
+    idom = dominators(sg)
+    if b not in idom:
+        return False
+    x = b
+    while True:
+        if x == a:
+            return True
+        if x == sg.entry:
+            return False
+        x = idom[x]
+
+
+def back_edges(sg):
+    if getattr(sg, '_back', None) is None:
+        idom = dominators(sg)
+        be = set()
+        for n in sg.nodes:
+            if n.id not in idom:
+                continue
+            for s in n.succ:
+                if s in idom and dominates(sg, s, n.id):
+                    be.add((n.id, s))
+        sg._back = be
+    return sg._back
